@@ -290,9 +290,11 @@ theorem C07_gen_state_readers :
     showIterates = "enumerate(self.acl + [self.implicit_rule])" ∧
     numRulesIs = "len([rule for rule in self._acl if rule is not None])" := by decide
 
-/-- `add_rule` stores every parameter under the field of the same name (no swapped source/destination), and takes nothing
-else but the position -/
+/-- `add_rule` stores every parameter under the field of the same name (no swapped source/destination), takes nothing
+else but the position, and its accepted branch stores the new rule UNCONDITIONALLY (an occupied slot is at most logged:
+`C07_addRule_replaces` is what the code does) -/
 theorem C07_gen_add_rule_plumbing :
+    addRuleBranch.filter (· ≠ "log-if-occupied") = ["store", "return True"] ∧
     (∀ kv, kv ∈ addRuleStores → kv.1 = kv.2) ∧
     addRuleStores.length = 8 ∧ (∀ p, p ∈ addRuleParams → p = "position" ∨ p ∈ addRuleStores.map (·.1)) ∧
     addRuleParams.length = 9 := by decide
